@@ -126,31 +126,38 @@ func original(c *alterCtx) *origInfo {
 // is the normal outcome; if it parses and verifies, the items the property
 // names must be those of the unaltered message.
 func judgeAltered(c *alterCtx, o *origInfo, alt []byte, where string, r *h.Rec) error {
+	_, err := judgeAlteredV(c, o, alt, where, r)
+	return err
+}
+
+// judgeAlteredV is judgeAltered that also reports whether the altered message
+// parsed and verified (the fuzz target needs the verdict itself).
+func judgeAlteredV(c *alterCtx, o *origInfo, alt []byte, where string, r *h.Rec) (bool, error) {
 	p7, err := pkcs7.Parse(alt)
 	if err != nil {
 		r.Label("outcome:parse-error")
-		return nil
+		return false, nil
 	}
 	r.NT() // an alteration that still parses
 	if err := verifyP7(p7, c.Mode, c.External); err != nil {
 		r.Label("outcome:verify-error")
-		return nil
+		return false, nil
 	}
 	r.Label("outcome:verifies")
 	r.Label("verifies-after:%s", where)
 	itA, err := itemsFromP7(p7)
 	if err != nil {
-		return fmt.Errorf("altered message verifies but its attributes cannot be re-encoded: %v", err)
+		return true, fmt.Errorf("altered message verifies but its attributes cannot be re-encoded: %v", err)
 	}
 	bad := func(what string) error {
 		return fmt.Errorf("altered message (%s, %s) VERIFIES although its %s differs from what was signed\n original=%x\n altered =%x\n external=%x",
 			c.Msg, where, what, []byte(c.Orig), alt, []byte(c.External))
 	}
 	if c.Mode == modeAttached && !bytes.Equal(itA.Content, o.itA.Content) {
-		return bad(fmt.Sprintf("content (%x, was %x)", itA.Content, o.itA.Content))
+		return true, bad(fmt.Sprintf("content (%x, was %x)", itA.Content, o.itA.Content))
 	}
 	if len(itA.Signers) == 0 {
-		return bad("signer set (empty)")
+		return true, bad("signer set (empty)")
 	}
 	match := func(withCert bool) string {
 		for i, s := range itA.Signers {
@@ -172,7 +179,7 @@ func judgeAltered(c *alterCtx, o *origInfo, alt []byte, where string, r *h.Rec) 
 		return ""
 	}
 	if d := match(false); d != "" {
-		return bad(d)
+		return true, bad(d)
 	}
 	if len(itA.Signers) != len(o.itA.Signers) {
 		r.Label("verifies:signer-count-changed")
@@ -180,7 +187,7 @@ func judgeAltered(c *alterCtx, o *origInfo, alt []byte, where string, r *h.Rec) 
 	if c.Trust {
 		q, err := pkcs7.Parse(alt)
 		if err != nil {
-			return fmt.Errorf("second Parse of the same bytes failed: %v", err)
+			return true, fmt.Errorf("second Parse of the same bytes failed: %v", err)
 		}
 		q.Content = p7.Content
 		if c.Mode == modeDigest {
@@ -192,7 +199,7 @@ func judgeAltered(c *alterCtx, o *origInfo, alt []byte, where string, r *h.Rec) 
 			r.Label("outcome:verifies-with-trust-store")
 			r.Label("verifies-with-trust-store-after:%s", where)
 			if d := match(true); d != "" {
-				return bad(d + " (trust store)")
+				return true, bad(d + " (trust store)")
 			}
 			for _, s := range itA.Signers {
 				known := false
@@ -224,7 +231,7 @@ func judgeAltered(c *alterCtx, o *origInfo, alt []byte, where string, r *h.Rec) 
 			r.Label("strict-reading:other-items")
 		}
 	}
-	return nil
+	return true, nil
 }
 
 // buildAlterCtx produces the message of one kind (deterministic randomness;
